@@ -45,6 +45,20 @@ def home_dir():
     return path
 
 
+def prepare_suite(scen):
+    """Generated suites are (re)created from their seed; the shipped suite uses a common scratch HOME."""
+    if scen.get("generated") is not None:
+        from travsim import gensuite
+        path = gensuite.ensure(scen["generated"])
+        scen["suite_path"] = path
+        scen["home"] = os.path.join(path, "home")
+    else:
+        # always explicit: a pool process may have been warmed with another suite before
+        from travsim import resolver
+        scen["suite_path"] = resolver.suite_path_of({})
+        scen["home"] = home_dir()
+
+
 def evaluate(prop, history):
     from travsim import oracles
     fn = getattr(oracles, "check_" + prop)
@@ -60,7 +74,7 @@ def execute(plan):
     _setup_child()
     from travsim import run as trun
     plan = copy.deepcopy(plan)
-    plan["scenario"].setdefault("home", home_dir())
+    prepare_suite(plan["scenario"])
     t0 = time.monotonic()
     history = trun.run_plan(plan)
     prop = plan["property"]
@@ -181,7 +195,7 @@ def warm(plan):
     warm_plan = copy.deepcopy(plan)
     warm_plan["defaults_only"] = True
     scen = warm_plan["scenario"]
-    scen.setdefault("home", home_dir())
+    prepare_suite(scen)
     scen["families"] = {"durations": "unit"}
     if scen.get("tool"):
         return  # tools parse with their own parameter sets: every run warms itself
@@ -300,6 +314,11 @@ def run_check(prop, tier, replay=None):
             mismatches += 1
     if mismatches:
         report.harness(f"determinism self-check failed for {mismatches}/{len(det_idx)} plans")
+    try:
+        from travsim import gensuite
+        gensuite.cleanup()
+    except Exception:
+        pass
     wall_s = time.monotonic() - t_start
     coverage = coverage_of(prop, tier, plans, results, skipped, agg, wall_s, ndet=len(det_idx), mism=mismatches)
     common.write_evidence(prop, tier, seed0, LEVEL, coverage, ASSUMPTIONS, wall_s, report.violations)
@@ -344,7 +363,7 @@ def aggregate(prop, plans, results, report, known):
         if result["trigger"]:
             agg["ilv_trigger"].add(result["ilv"])
         agg["pairs"].update(result["pairs"])
-        kind = plans[index]["scenario"].get("kind", "-")
+        kind = plans[index]["scenario"].get("kind", "-") + ("/generated-suite" if plans[index]["scenario"].get("generated") is not None else "")
         agg["kinds"][kind] = agg["kinds"].get(kind, 0) + 1
         for k, v in result["faults"].items():
             agg["faults"][k] = agg["faults"].get(k, 0) + v
